@@ -31,6 +31,11 @@ T_SOFT, T_HARD = 9, 5         # timed scripts: intervals in units (delays are ev
 FIXED = dict(kind="fixed", limit=4, spike=1, total=0)
 PERCENT = dict(kind="percent", limit=3, spike=1, total=200 * MIB)
 DEFSPIKE = dict(kind="fixed", limit=5, spike=0, total=0)      # spike unspecified: documented default 20%
+# percentage limit with the spike percentage unspecified: the documented default is 20 % OF THE LIMIT, which for limit
+# percentages that are not multiples of 5 is not a whole percentage of total memory (48 % -> 9.6 %); totals chosen so that
+# every division is exact in the model's unit (1 KiB)
+PCTDEF = [dict(kind="percent", limit=48, spike=0, total=1000 * 1024, unit=1024), dict(kind="percent", limit=73, spike=0, total=1000 * 1024, unit=1024),
+          dict(kind="percent", limit=99, spike=0, total=1000 * 1024, unit=1024)]
 # limits of 4 GiB and more ("every limit/spike configuration accepted by validation"): the model's memory unit is 1 KiB
 # (TLC integers have 32 bits), `total` is in units, the driver multiplies readings and total by `unit`
 BIG = [dict(kind="fixed", limit=8192, spike=2048, total=0, unit=1024), dict(kind="fixed", limit=6000, spike=500, total=0, unit=1024),
@@ -395,7 +400,8 @@ def run(c):
                 (FIXED, INF_UNITS, INF_UNITS, "small", 5, 4 ** 5, False),
                 (PERCENT, 0, 0, "classes", 4, 7 ** 4, False),
                 (PERCENT, INF_UNITS, 0, "full", 3, None, False),
-                (DEFSPIKE, 0, 0, "classes", 3, 7 ** 3, True)]
+                (DEFSPIKE, 0, 0, "classes", 3, 7 ** 3, False)]
+        plan += [(b, 0, 0, "small", 3, 13 ** 3, False) for b in PCTDEF[:2]]
         plan += [(b, 0, 0, "small", 3, 13 ** 3, False) for b in BIG[:4]] + [(BIG[4], INF_UNITS, 0, "small", 3, 7 ** 3, False),
                                                                              (BIG[5], 0, 0, "classes", 3, 7 ** 3, False)]
         procs = 4
@@ -407,8 +413,9 @@ def run(c):
                 (FIXED, INF_UNITS, INF_UNITS, "full", 5, 7 ** 5, False),
                 (PERCENT, 0, 0, "small", 4, 13 ** 4, False),
                 (PERCENT, INF_UNITS, 0, "full", 4, None, False),
-                (DEFSPIKE, 0, 0, "small", 4, 13 ** 4, True),
-                (DEFSPIKE, INF_UNITS, 0, "full", 3, None, True)]
+                (DEFSPIKE, 0, 0, "small", 4, 13 ** 4, False),
+                (DEFSPIKE, INF_UNITS, 0, "full", 3, None, False)]
+        plan += [(b, 0, 0, "small", 4, 13 ** 4, False) for b in PCTDEF] + [(b, INF_UNITS, 0, "full", 3, None, False) for b in PCTDEF]
         plan += [(b, 0, 0, "small", 4, 13 ** 4, False) for b in BIG] + [(b, INF_UNITS, 0, "full", 3, None, False) for b in BIG]
         procs = 8
     for cfg, soft, hard, rset, n, expect, drift_only in plan:
@@ -486,7 +493,7 @@ def run(c):
         "the Go runtime's forced-GC cycle counter and through the re-measurement",
         "elapsed time: intervals 0 / one hour in the exhaustive part; finite intervals are validated against measured "
         "instants (a decision is accepted iff consistent with some clock reading in the measured interval)",
-        "spike limit unspecified = 20% of the limit (documented default) is compared as model conformance only",
+        "spike limit unspecified = 20% of the limit, the documented default (processor README, config doc comments), also for percentage limits that are not multiples of 5",
         "users of a shared limiter are started and shut down at most once each; no restart after the last shutdown",
         "profiles signal of the processor not driven"]
     c.finish_args = dict(rule="A: every sequence of N checks over the stated reading set (first reading x reading after GC when "
